@@ -57,11 +57,13 @@ def plan(tier):
         return dict(n_cases=640, shards=2, classes=CLASSES, timeout_s=600,
                     min_evals={"oob_upper_survivors": 480, "oob_lower": 480, "trim_exact": 200, "dist_exact": 240,
                                "mask_exact": 400, "oob_repr_invariance": 240, "trim_compose": 70,
-                               "dist_union_monotone": 40, "mask_complement": 85})
+                               "dist_union_monotone": 40, "mask_complement": 85},
+                    min_known={"oob-lower-face": 50})
     return dict(n_cases=9600, shards=16, classes=CLASSES, timeout_s=3000,
                 min_evals={"oob_upper_survivors": 7500, "oob_lower": 7500, "trim_exact": 3000, "dist_exact": 3600,
                            "mask_exact": 6000, "oob_repr_invariance": 3700, "trim_compose": 1000,
-                           "dist_union_monotone": 650, "mask_complement": 1300})
+                           "dist_union_monotone": 650, "mask_complement": 1300},
+                min_known={"oob-lower-face": 500})
 
 
 # ---- judging helpers ------------------------------------------------------------------------------
